@@ -53,14 +53,14 @@ let msg_of (m : Sexp.t) : msg =
   | [Sym "a"; t] -> MAssistant (str_of t)
   | [Sym "t"; t] -> MThinking (str_of t)
   | [Sym "p"; t] -> MPlan (str_of t)
-  | [Sym "x"; nm; t] -> MToolUse (str_of nm, str_of t)
+  | [Sym "x"; nm; sh; ls] -> MToolUse (str_of nm, str_of sh, List.map str_of (list ls))
   | _ -> failwith "msg"
 let show_msg = function
   | MUser t -> L [Sym "u"; show_str t]
   | MAssistant t -> L [Sym "a"; show_str t]
   | MThinking t -> L [Sym "t"; show_str t]
   | MPlan t -> L [Sym "p"; show_str t]
-  | MToolUse (nm, t) -> L [Sym "x"; show_str nm; show_str t]
+  | MToolUse (nm, sh, ls) -> L [Sym "x"; show_str nm; show_str sh; L (List.map show_str ls)]
 
 (* in: ((ID (MSG ...)) ...) CANDS   out: (ok ((MSG ...) ...) total) (strip remaining) | panic *)
 let c08_prompts body =
@@ -102,7 +102,8 @@ let contains (hay : string) (needle : string) : bool =
   n = 0 || go 0
 
 (* one scenario of note writers.
-   in: MODE LOGGED_IN CAS_OK ((FN HAS_TEXT) ...) (MSG ...) CANDS (NEEDLE ...)
+   in: MODE LOGGED_IN CAS_OK ((FN (ACCEPTED_LINES ...)) ...) (MSG ...) CANDS (NEEDLE ...)
+       one fresh working-log record (carrying the messages) per ACCEPTED_LINES value
    out: (clean 0|1) (hits 0|1 ...)      hit = the needle occurs in a message of some note *)
 let c08_run body =
   match parse_many body with
@@ -110,21 +111,21 @@ let c08_run body =
       let isr = classifier c in
       let mode = mode_of m in
       let e = { e_logged_in = num li <> 0; e_cas_ok = num co <> 0 } in
-      let fresh = { p_id = bytes_of_string "p"; p_tool = bytes_of_string "toolx";
-                    p_messages = List.map msg_of (list msgs) } in
+      let fresh acc = { p_id = bytes_of_string "p"; p_tool = bytes_of_string "toolx"; p_accepted = n_of_int acc;
+                        p_messages = List.map msg_of (list msgs) } in
       let ns = List.fold_left (fun ns st ->
           match list st with
-          | [fn; has] ->
+          | [fn; accs] ->
               let name = str_of fn in
               let w = match List.filter (fun w -> w.w_fn = name) note_writers with
                 | w :: _ -> w
                 | [] -> failwith ("no writer named " ^ string_of_bytes name ^ " in the generated inventory") in
               let picks = List.concat (List.mapi (fun i nt ->
                   List.mapi (fun j _ -> (nat_of_int i, nat_of_int j)) nt) ns) in
-              write isr w mode e ns { s_worklog = (if num has <> 0 then [fresh] else []); s_picks = picks }
+              write isr w mode e ns { s_worklog = List.map (fun a -> fresh (num a)) (list accs); s_picks = picks }
           | _ -> failwith "step") [] (list steps) in
       let texts = List.concat_map (fun nt -> List.concat_map (fun p ->
-          List.map (fun mg -> string_of_bytes (payload mg)) p.p_messages) nt) ns in
+          List.concat_map (fun mg -> List.map string_of_bytes (texts mg)) p.p_messages) nt) ns in
       let hit nd = List.exists (fun t -> contains t (string_of_bytes (str_of nd))) texts in
       show (L [Sym "clean"; Sym (bool_s (inv_cleanb ns))]) ^ " "
       ^ show (L (Sym "hits" :: List.map (fun nd -> Sym (bool_s (hit nd))) (list needles)))
@@ -145,8 +146,29 @@ let inventory () =
   Printf.printf "inventory_notes_ok %s\n" (bool_s (inventory_notes_ok note_writers));
   Printf.printf "unsafe %d\n" (List.length (unsafe_writers note_writers))
 
+(* the model's own search for a record that keeps its messages in a non-notes mode: every writer with a
+   storage-mode match x {default, local} x logged in / out x CAS ok / failing x accepted_lines in {0, 1} *)
+let cas_cex () =
+  let found = ref 0 in
+  List.iter (fun w ->
+      match w.w_arms with
+      | None -> ()
+      | Some _ ->
+          List.iter (fun (mode, ms) -> List.iter (fun li -> List.iter (fun co -> List.iter (fun acc ->
+              let p = { p_id = bytes_of_string "p"; p_tool = bytes_of_string "toolx"; p_accepted = n_of_int acc;
+                        p_messages = [MUser (bytes_of_string "hi")] } in
+              let ns = write (fun _ -> false) w mode { e_logged_in = li; e_cas_ok = co } []
+                  { s_worklog = [p]; s_picks = [] } in
+              if not (inv_cleanb ns) then begin
+                incr found;
+                Printf.printf "cex writer=%s mode=%s logged_in=%s cas_ok=%s accepted_lines=%d messages=nonempty\n"
+                  (string_of_bytes w.w_fn) ms (bool_s li) (bool_s co) acc
+              end) [0; 1]) [true; false]) [true; false]) [(MDefault, "default"); (MLocal, "local")]) note_writers;
+  Printf.printf "cas_clears_all %s\n" (bool_s cas_clears_all);
+  Printf.printf "cex_count %d\n" !found
+
 let () = run_driver
     ["c08-tokens", c08_tokens; "c08-redact", c08_redact; "c08-secret", c08_secret;
      "c08-prompts", c08_prompts; "c08-effective", c08_effective; "c08-stored", c08_stored;
      "c08-run", c08_run]
-    ["c08-seccharset", seccharset; "c08-inventory", inventory]
+    ["c08-seccharset", seccharset; "c08-inventory", inventory; "c08-cas-cex", cas_cex]
